@@ -90,7 +90,7 @@ def compile_script(fd, kind, cfg, seq, delivery, alphabet, filler=True, touchscr
         labels = ORDER
     elif kind == 'locations':
         argv += ['--locations'] + fd.locations
-        steps.append({'op': 'sync', 'n': 3})
+        steps.append({'op': 'sync', 'n': 2})
         expect = {'rows': [], 'n': 0, 'added': 0, 'most': 0}
         labels = [n.lower() for n in ORDER] + ['rx']
     elif kind == 'expiry':
@@ -105,7 +105,7 @@ def compile_script(fd, kind, cfg, seq, delivery, alphabet, filler=True, touchscr
         labels = ['S1', 'S2', 'E1']
     else:
         raise ValueError(kind)
-    s3 = {'op': 'sync', 'n': 3}
+    s3 = {'op': 'sync', 'n': 2}
     steps += [key_step(KEYS['F3'], ['F3']), s3, {'op': 'snap', 'name': 'air0'},
               key_step(KEYS['F4'], ['F4']), s3, {'op': 'snap', 'name': 'stats0'},
               key_step(KEYS['F1'], ['F1']), s3, {'op': 'snap', 'name': 'map0'}]
